@@ -83,9 +83,15 @@ def run_op(
     setup: Optional[Callable[[World], None]] = None,
     model_overrides: Optional[Dict[str, Val]] = None,
     n=None,
+    callbacks: Optional[Dict[str, Any]] = None,
 ) -> Outcome:
     box = box or Box()
-    w = World(prog, roles, box)
+    if callbacks is None and custom_gamma:
+        from fractions import Fraction
+
+        g = box.num("gamma", prov=frozenset({"CALLBACK:gamma"}))
+        callbacks = {"gamma": {"result": g}}
+    w = World(prog, roles, box, callbacks=callbacks)
     if setup:
         setup(w)
     m = w.make_model(custom_gamma=custom_gamma, overrides=model_overrides)
